@@ -166,6 +166,7 @@ def _check(ctx: Ctx) -> None:
            and call_method(c)[0].id == out]
     ctx.check(bool(ext), "KEEP", f"{FN}: pairings are written to the result", function=FN, construct="pairings never added to the result",
               message="", file=fi.file, node=fi.node)
+    skip_form = False
     for c in ext:
         guarded = any(isinstance(a, ast.If) for a in ancestors(c) if a is not fi.node)
         if guarded and not empt:
@@ -177,8 +178,14 @@ def _check(ctx: Ctx) -> None:
                 et = emptiness_test(pcs[0][0])
                 if et is not None and (et[1] is not pcs[0][1]) and (not chosen_lists or et[0] in chosen_lists):
                     guarded = False
+                    skip_form = True
         ctx.check(not guarded, "KEEP", f"{FN}: pairings are added unconditionally", function=FN, construct="pairings added under a condition",
                   message="", file=fi.file, node=c)
+    # ... and the removal itself exists: the pairing is emptied under `nothing fits`, or written out only under `something fits`
+    ctx.check(bool(empt) or skip_form, "KEEP", f"{FN}: a note for which no allowed duration is left is removed", function=FN,
+              construct="a note for which no allowed duration is left is not removed",
+              message="neither `pairings[i] = []` under the emptiness test nor a write-out guarded by it: the note stays with a length outside the allowed values",
+              file=fi.file, node=ext[0] if ext else fi.node)
 
     # --- SORT
     def trigger(n):
